@@ -300,7 +300,6 @@ def resolve_element( path ):
     for term in path['segment']:
         if 'element' in term:
             element.append( term['element'] )
-            break
     return tuple( element ) if element else (0, )
 
 def parse_int( x, base=10 ):
